@@ -59,7 +59,7 @@ CHECKS['C14'] = dict(level=MC, ref='4 C14',
          'consume_transpose()/copy() on operands. Each execution is validated by TLC against the same exact reference (TraceTensor, so values / charge / signature agree with the reference and '
          'hence with each other), and TraceHyper.tla compares the executions with each other event by event: outcome, signature, charge, fusion-tree shapes and legs (ObsEqAll).',
     note='bounded: 140 (quick) / 2100 (thorough) programs of 7/9 steps from tensordot, add, trace, transpose, fuse/unfuse, conj, vdot, diag, broadcast, apply_mask, add/remove_leg; '
-         'svd/qr are compared across policies in C04 (gauge-invariant observables); contract_with_unroll (paths, unrolling, slicing) is NOT covered yet. One open KNOWN FINDING (stored structurally-zero blocks of the fusing '
+         'svd/qr are compared across policies in C04 (gauge-invariant observables); contract_with_unroll: 84/1200 random networks (no swaps, no traced labels) through 2 optimizers, unrolled by charge sector, sliced uniformly (1, 2), one or two labels at once, contracted and output labels - every result must be the order-free value of TensorOps!Ncon (one fix recorded); operands without blocks and unroll specifications that turn an operand into a scalar are excluded (get_contraction_path cannot size them), the non-exported contract_with_unroll_compute_constants is not exercised. One open KNOWN FINDING (stored structurally-zero blocks of the fusing '
          'kernels change get_legs() of later results): its canonical reproducer runs in every check; only leg differences confined to all-zero sectors match it. Programs that mix an explicit fusion mode with the default one are different computations under each default (hard- and meta-fused legs cannot be combined, C03): they are compared across policies and lazy placements within one default mode only (counted in the evidence)',
     technique='TLA+ hyper-property over executions (TraceHyper) + per-execution trace validation against TensorOps')
 CHECKS['C05'] = dict(level=MC, ref='4 C05',
